@@ -155,6 +155,34 @@ def check_unpack(ctx):
                 rep.disagreements.append(dict(unit="codec.checksum", case=hx(b), impl=got, model=r))
 
 
+def check_huge_sums(ctx):
+    """Payloads whose byte sum reaches 2^32 (>= 16 843 009 bytes of 0xFF; the OPEN payload of a very long command is not bounded by
+    maxdata).  Oracle only (independent arithmetic): the model's theorem covers all sums; shipping 32 MB of hex to the driver per case
+    is left to the thorough tier."""
+    from adb_shell.adb_message import AdbMessage, checksum
+    rep = ctx.report
+    for n in (16843009, 16843010, 16843009 + 4096):
+        data = b"\xff" * n
+        want = (255 * n) % (1 << 32)
+        rep.evaluations += 1
+        rep.count("payload_len", ">=2^24")
+        for conv in (bytes, bytearray):
+            got = checksum(conv(data))
+            if got != want:
+                rep.prop_failures.append(dict(case=["huge", n, conv.__name__], why="checksum of %d bytes of 0xFF is %d, byte sum mod 2^32 is %d" % (n, got, want),
+                                              signature=dict(kind="checksum-mod")))
+        hdr = AdbMessage(b"OPEN", 1, 0, data).pack()
+        field = int.from_bytes(hdr[16:20], "little")
+        if field != want or int.from_bytes(hdr[12:16], "little") != n:
+            rep.prop_failures.append(dict(case=["huge", n, "pack"], why="packed header announces length %d checksum %d; payload has %d bytes, byte sum mod 2^32 = %d" % (
+                int.from_bytes(hdr[12:16], "little"), field, n, want), signature=dict(kind="checksum-mod")))
+        rep.signatures.add(("huge", n))
+        if ctx.tier == "thorough" and n == 16843009:
+            r = ctx.driver.ask("codec checksum " + data.hex())
+            if r != "ok %d" % want:
+                rep.disagreements.append(dict(unit="codec.checksum", case="0xFF x %d" % n, impl=want, model=r))
+
+
 def run(ctx):
     ctx.report.rule = ("AdbMessage.pack/unpack/checksum driven directly: all 7 commands x edge 32-bit arguments x payload sizes "
                        "{0..65536 (thorough: 1 MiB)} as bytes and bytearray, out-of-range arguments, random headers for unpack; plus the outbound "
@@ -162,6 +190,7 @@ def run(ctx):
                        "payload-length class, byte-sum class).")
     check_cases(ctx, gen_cases(ctx))
     check_unpack(ctx)
+    check_huge_sums(ctx)
     # API level: the outbound byte stream of whole sessions (every operation kind, short writes included) through the Lean parser
     import oracles
     import scen
@@ -190,6 +219,8 @@ def search(ctx, disagreements, proofs):
 
 def shrink(ctx, failure):
     case = failure.get("case")
+    if failure.get("no_shrink") or (case and not isinstance(case, dict) and case[0] == "huge"):
+        return failure
     if isinstance(case, dict):
         import oracles
         from units import sesscheck
@@ -227,7 +258,16 @@ def replay(ctx, payload):
     if isinstance(case, dict):
         import oracles
         from units import sesscheck
+        if case.get("kind") == "conc-sessions":
+            from units import conc
+            return conc.replay_conc_sessions(ctx, fl)
         return sesscheck.replay(ctx, payload, (oracles.o_c02,))
+    if case and case[0] == "huge":
+        before = len(ctx.report.prop_failures)
+        check_huge_sums(ctx)
+        for f in ctx.report.prop_failures[before:]:
+            print("FAIL:", f["why"])
+        return len(ctx.report.prop_failures) == before
     if not case or case[0] != "pack":
         print("nothing to replay: %s" % payload.get("kind"))
         return True
